@@ -930,7 +930,9 @@ def strat_c11(draw):
 
 
 def _has_check_output_column(case):
-    return any(t["name"] == "check_output" for t in case.get("table", {}).get("columns", []))
+    # (in the data, or declared and then added by add_missing_columns)
+    return any(t["name"] == "check_output" for t in case.get("table", {}).get("columns", [])) or \
+        any(c.get("name") == "check_output" for c in case.get("spec", {}).get("columns", []))
 
 
 def _check_output_finding(pid):
